@@ -575,6 +575,45 @@ theorem C11_while_order (c : Ctx) (cnd : Expr) (b : Stmt) (A : List Access)
   · cases hr
     simp [bumpIf]
 
+/-! ## every `reference_accesses` override of the tree under check is classified -/
+
+/-- the classes that define `reference_accesses` / `get_signature_and_indices` themselves, with how
+the model treats them: `true` = modelled (`Node`: the default recursion over the children —
+BinaryOperation, UnaryOperation, Range, Literal, Schedule, Return; `Reference` with the ArrayMixin /
+StructureReference / Member signature-and-indices rules: `Expr.var/idx1/idx2/idxs`; `Assignment`,
+`Call`, `IntrinsicCall`, `CodeBlock`, `IfBlock`, `Loop`, `WhileLoop`: the constructors of the same
+name), `false` = outside the model (PSy-layer kernel nodes: their accesses come from kernel
+metadata, not from statements of the program). -/
+def classifiedOverrides : List (String × Bool) := [
+  ("psyclone.domain.lfric.lfric_builtins.LFRicBuiltIn", false),
+  ("psyclone.domain.lfric.lfric_kern.LFRicKern", false),
+  ("psyclone.gocean1p0.GOKern", false),
+  ("psyclone.psyGen.Kern", false),
+  ("psyclone.psyir.nodes.assignment.Assignment", true),
+  ("psyclone.psyir.nodes.call.Call", true),
+  ("psyclone.psyir.nodes.codeblock.CodeBlock", true),
+  ("psyclone.psyir.nodes.if_block.IfBlock", true),
+  ("psyclone.psyir.nodes.intrinsic_call.IntrinsicCall", true),
+  ("psyclone.psyir.nodes.loop.Loop", true),
+  ("psyclone.psyir.nodes.node.Node", true),
+  ("psyclone.psyir.nodes.reference.Reference", true),
+  ("psyclone.psyir.nodes.while_loop.WhileLoop", true)]
+
+def classifiedSigIdx : List String := [
+  "psyclone.psyir.nodes.array_mixin.ArrayMixin",
+  "psyclone.psyir.nodes.array_of_structures_mixin.ArrayOfStructuresMixin",
+  "psyclone.psyir.nodes.member.Member",
+  "psyclone.psyir.nodes.reference.Reference",
+  "psyclone.psyir.nodes.structure_member.StructureMember",
+  "psyclone.psyir.nodes.structure_reference.StructureReference"]
+
+/-- The table translated from the live class hierarchy on every run is exactly the classified one:
+a new (or removed) `reference_accesses` / `get_signature_and_indices` override anywhere under
+`psyclone.` breaks this obligation until it is modelled or listed as outside the model. -/
+theorem C11_overrides_classified :
+    Gen.refAccOverrides = classifiedOverrides.map Prod.fst ∧ Gen.sigIdxOverrides = classifiedSigIdx :=
+  ⟨rfl, rfl⟩
+
 /-! ## non-vacuity and sanity evaluations -/
 
 /-- `a(i) = a(i) + 1` (a = 0, i = 1): `i` READ, `a` READ, then `i` READ, `a` WRITE -/
